@@ -307,3 +307,16 @@ Qed.
 (* Bundle::default() has no payload block: it does not validate, and is not a start state *)
 Lemma bundle_default_invalid : Validate.validate bundle_default <> [].
 Proof. vm_compute. discriminate. Qed.
+
+(* ---------------- the builder route builds the primary block it is told to build ---------------- *)
+(* every field handed to its setter (harness chan_id::via_builder does exactly this) *)
+Definition builder_of (p : primary) : primary_builder :=
+  mkpb (Some (p_flags p)) (Some (p_crc p)) (Some (p_dst p)) (Some (p_src p)) (Some (p_rpt p)) (Some (p_time p, p_seq p))
+       (Some (p_lifetime p)) (Some (p_frag_off p)) (Some (p_total_len p)).
+Theorem builder_route_same p : p_version p = DTN_VERSION -> p_dst p <> eid_none -> primary_builder_build (builder_of p) = Some p.
+Proof.
+  intros Hv Hd. unfold primary_builder_build, builder_of. cbv zeta. cbn [pb_dst pb_flags pb_crc pb_src pb_rpt pb_ts pb_lifetime pb_off pb_len dflt fst snd].
+  destruct (eid_eqb (p_dst p) eid_none) eqn:E; [apply eid_eqb_eq in E; contradiction|].
+  destruct p as [ver flags crc dst src rpt t q life off len]. cbn [p_version p_flags p_crc p_dst p_src p_rpt p_time p_seq p_lifetime p_frag_off p_total_len] in *.
+  subst ver. reflexivity.
+Qed.
